@@ -78,7 +78,12 @@ static void nd_windows(const uint8_t *p, size_t len, size_t win, const char *wha
 static void nd_phrase_words(const char *ph, const char *what) {       /* one needle per word of >= 5 bytes (first 24 bytes of it) */
     char buf[2048]; strncpy(buf, ph, sizeof buf - 1); buf[sizeof buf - 1] = 0;
     for (char *q = buf; (q = strstr(q, "\xE3\x80\x80")); ) { q[0] = ' '; memmove(q + 1, q + 3, strlen(q + 3) + 1); }
-    for (char *t = strtok(buf, " "); t; t = strtok(NULL, " ")) { size_t l = strlen(t); if (l >= 5) nd_add(t, l > 24 ? 24 : l, what); }
+    for (char *t = strtok(buf, " "); t; t = strtok(NULL, " ")) {
+        size_t l = strlen(t); if (l >= 5) nd_add(t, l > 24 ? 24 : l, what);
+        /* the same word with every non-ASCII byte removed (what an accent-folding search may copy around) */
+        char a[64]; size_t al = 0; int had = 0; for (size_t i = 0; i < l && al < 60; i++) { if ((uint8_t)t[i] & 0x80) had = 1; else a[al++] = t[i]; }
+        if (had && al >= 5) { char w2[64]; snprintf(w2, sizeof w2, "%s, accents removed", what); nd_add(a, al > 24 ? 24 : al, w2); }
+    }
 }
 static void nd_indices(const unsigned idx[16], const char *what) {
     for (int i = 0; i + 1 < 16; i++) {
